@@ -64,7 +64,14 @@ EXERCISED = (
     "edit the message objects they are handed; byte-identical frames in a row; the socket "
     "closed and re-opened under a running heartbeat manager; the console not reading for "
     "minutes and then reading again; installations without any sensor or without zones; one "
-    "console answering a search from two addresses")
+    "console answering a search from two addresses; a host name that resolves to another "
+    "address at reconnection; close() while written bytes are still in the transport; bytes "
+    "behind the terminator of a name; names that are not NFC-normalised; the same object "
+    "re-initialised against an installation that gained an air-conditioner; init() or "
+    "open_socket() again while a command is held for the reconnection; CRC buffers changed in "
+    "place; heartbeat intervals below one second and of an hour; times of day carrying "
+    "seconds, a UTC offset or the fold flag; an error description withdrawn while the error "
+    "code stays")
 
 T = """You are helping to evaluate a verification harness by producing a *subtle, realistic regression* in a Python library.
 
